@@ -37,6 +37,19 @@ CLAIMS = {
              "CPython), z3. Unverified: str/bytes/bytearray/unicode indexing helpers, SetItemInt/DelItemInt, slicing (SliceObject), "
              "helper selection in IndexNode.",
         ref="4 C15"),
+    "C18": dict(
+        text="Proof, on an abstract str model (code points / UTF-8 bytes handed to the decoder), that the C-integer formatting helpers "
+             "taken from the generated module produce exactly CPython's text: __Pyx____Pyx_PyUnicode_From_<T> == format(v, '<0?><width>[doxX]') "
+             "character by character for every value of T, every width and both paddings (loop unrolled to the type's digit bound with an "
+             "unwinding assertion, per-iteration ghost lemmas); __Pyx_uchar_<T> / __Pyx_PyUnicode_FromOrdinal_Padded == format(v, '<0?><width>c') "
+             "incl. OverflowError outside range(0x110000) and the RFC 3629 bytes given to PyUnicode_DecodeUTF8; __Pyx_PyUnicode_BuildFromAscii "
+             "(loop invariants, termination). Kernel: integer and character formatting helpers only.",
+        note="Trusted: dv C front end, dv/pystr.py (contracts of PyUnicode_New/WRITE/DecodeLatin1/DecodeUTF8/FromOrdinal/Concat, "
+             "PySequence_Repeat; allocation never fails), the closed forms of the digit tables (checked against the initialisers every run), z3. "
+             "Unverified: f-string node lowering (JoinedStrNode/FormattedValueNode choose helper, width, padding), %-format rewriting, "
+             "CDoubleToPyUnicode, str()/repr()/format() of objects, __Pyx_PyUnicode_Join, every format spec outside "
+             "[0]width{d,o,x,X,c}; the quick tier covers int (d, x) + the character helpers, the thorough tier all of int/long/short/unsigned int.",
+        ref="4 C18"),
     "C16": dict(
         text="Proof for all Py_ssize_t arguments that __pyx_memoryview_slice_memviewslice (the one-dimension index/slice normaliser "
              "behind both a[i:j:k] on typed memoryviews and memoryview.__getitem__), taken from the C the working-tree compiler "
